@@ -124,6 +124,13 @@ def validate_witness(name, params, script, path):
                     reset_function=lambda *, rng=None: RS.call(name, params, rng),
                     transition_function=env._transition_function, observation_function=env._observation_function,
                     reward_function=env._reward_function, termination_function=env._termination_function)
+    # the environment object has already been through an earlier episode from the same initial state that was ended at
+    # once (each first action in turn): winnability must not depend on what the object did before
+    for a0 in list(env.action_space.actions):
+        env._rng = ChoiceRng(script)
+        env.reset()
+        env._rng = ChoiceRng([])
+        env.step(a0)
     env._rng = ChoiceRng(script)
     env.reset()
     done = False
@@ -199,7 +206,10 @@ def judge_point(name, params, limit):
                 m = validate_witness(name, params, inits[k], path)
                 st['witnesses'] += 1
                 if m:
-                    fails.append({'kind': 'INTERNAL', 'message': f'{name} {params}: {m}'})
+                    fails.append({'kind': 'witness', 'name': name, 'params': params, 'script': inits[k], 's': k, 'path': [[a, c] for a, c in path],
+                                  'message': f'{name}({_fmt(params)}) reset script {inits[k]}: a winning action sequence found on the functional '
+                                  f'interface fails through env.reset/step on an environment object that ran an episode before: {m}',
+                                  'sig': {'reset': name, 'cause': 'stateful_replay'}})
                 break
     return st, fails
 
@@ -256,6 +266,9 @@ def _work(job):
 
 
 def replay(case):
+    if case['kind'] == 'witness':
+        params = {k: (tuple(v) if isinstance(v, list) else v) for k, v in case['params'].items()}
+        return validate_witness(case['name'], params, case['script'], [(a, c) for a, c in case['path']])
     name, params = case['name'], {k: (tuple(v) if isinstance(v, list) else v) for k, v in case['params'].items()}
     res = RS.call(name, params, ChoiceRng(case['script']))
     if isinstance(res, tuple):
